@@ -269,9 +269,17 @@ def rule_H4(ctx, R):
             while v[0] == "agg" and v[1] in ("adt", "wrap") and len(v[4]) == 1 and (v[2].endswith("Result") or v[2].endswith("PoisonError")):
                 v = v[4][0]
             okv = False
-            # re-wrapped into another collection of the crate (`Owned { data: self.data }`): judged by the wrapped value
-            while v[0] == "agg" and v[1] == "adt" and v[2] in R.lock_adts and len(v[4]) == 1:
-                v = v[4][0]
+            # re-wrapped into another collection of the crate (`Owned { data: self.data }`, `Ref { data: self.data, locks:
+            # self.locks.clone() }`): judged by the one field whose declared type carries the data parameter
+            for _ in range(3):
+                if not (v[0] == "agg" and v[1] == "adt" and v[2] in R.lock_adts and v[2] in ctx.F.adts):
+                    break
+                flds = ctx.F.adts[v[2]]["variants"][0]["fields"]
+                carrying = [i for i, fd in enumerate(flds) if i < len(v[4]) and any(x["k"] == "param" for x in ty_walk(fd["ty"]))]
+                if len(carrying) != 1 or (v[4][carrying[0]][0] == "ref" and v[4][carrying[0]][1][0] == "O" and
+                                          not v[4][carrying[0]][1][1].startswith("a")):
+                    break
+                v = v[4][carrying[0]]
             if v[0] == "agg" and v[1] == "adt" and v[2] in R.lock_adts and v[4] and v[4][0][0] == "ref" and v[4][0][1][0] == "O":
                 # ... or re-boxed (`Boxed { data: leak(Box::new(self.data)), locks }`): judged by what went into the new box
                 cell = v[4][0][1][1]
@@ -290,15 +298,17 @@ def rule_H4(ctx, R):
                 # content of the Box re-created from the collection's own data pointer
                 fr = [e for e in _calls(p) if e["def"].endswith("from_raw") and vid(e["argv"][0]) in ("op:a1.0", "op:a1.*.0")]
                 okv = any(v[1].startswith(e["result"] + ".") for e in fr)
-            elif v[0] == "op" and v[2] and v[2][0] == "call":
-                ce = next((e for e in _calls(p) if e.get("result") == v[1]), None)
+            elif (v[0] == "op" and v[2] and v[2][0] == "call") or \
+                    (v[0] == "ref" and v[1][0] == "O" and any(e.get("result") == v[1][1] for e in _calls(p))):
+                rid = v[1] if v[0] == "op" else v[1][1]      # `&*member_call(..)`: a reborrow of what the member handed out
+                ce = next((e for e in _calls(p) if e.get("result") == rid), None)
                 src = vid(ce["argv"][0]) if ce else "?"
                 own = src.startswith("op:a1") or src.startswith("ref:a1")
                 if not own:
                     fr = [e for e in _calls(p) if e["def"].endswith("from_raw") and vid(e["argv"][0]) in ("op:a1.0", "op:a1.*.0")]
                     own = any(src.startswith("op:" + e["result"]) for e in fr)
                 base_def = ce.get("base", ce["def"]) if ce else ""
-                okv = own and (base_def.startswith("lockable::") or base_def.split("::")[-1] in ("as_ref", "as_mut", "into_inner", "get_mut", "deref", "into_iter"))
+                okv = own and (base_def.startswith("lockable::") or base_def.split("::")[-1] in ("as_ref", "as_mut", "into_inner", "get_mut", "deref", "deref_mut", "into_iter", "index", "index_mut", "borrow", "borrow_mut"))
             if not okv:
                 bad = "returns %r, which is not (derived only from) the value stored in self" % (v,)
         if bad:
@@ -307,4 +317,54 @@ def rule_H4(ctx, R):
             n += 1
             res.ok(f["path"])
     res.need(30, "accessors/consumers")
+    return res
+
+
+def rule_H5(ctx, R):
+    res = RuleResult("H5", "what is handed to a collection is kept: a safe function of a lock or collection type that takes a value of a "
+                           "user-chosen type by value (the data of `new`/`from`, the iterator of `extend`/`from_iter`) and cannot "
+                           "refuse it (it returns neither Option nor Result) never destroys that value, or the iterator made from "
+                           "it, on a returning path - it ends up in `self` or in the result")
+    from facts import ty_walk
+    n = 0
+    for f in ctx.F.fns:
+        if "inputs" not in f or f.get("unsafe") or "mir" not in f or not f.get("reachable") or f["kind"] == "Closure":
+            continue
+        imp = ctx.F.impl_of_fn(f)
+        if not imp or imp["self_ty"]["k"] != "adt" or imp["self_ty"]["path"] not in R.lock_adts:
+            continue
+        out = f["output"]
+        if out["k"] == "adt" and (out["path"].endswith("::Option") or out["path"].endswith("::Result")):
+            continue
+        ti = f.get("trait_item") or ""
+        if ti.startswith("std::ops::Drop") or ti.startswith("std::fmt"):
+            continue
+        by_val = [i + 1 for i, t in enumerate(f["inputs"]) if t["k"] in ("param", "alias") and
+                  t.get("name") not in R.keyable_params(f) and t.get("name") not in R.fn_params(f)]
+        if not by_val:
+            continue
+        paths, err, I = ctx.paths(f)
+        if err:
+            res.undecided(f["path"], "analysis", err, *_floc(f))
+            continue
+        bad = None
+        for p in paths:
+            if p.kind != "ret":
+                continue
+            for i in by_val:
+                root = "a%d" % i
+                derived = {root}
+                for e in _calls(p):
+                    if e.get("argv") and vid(e["argv"][0]) in ("op:" + root,) and e["def"].split("::")[-1] in ("into_iter", "iter", "into"):
+                        derived.add(str(e.get("result")))
+                for e in p.events:
+                    if e["k"] in ("DROPP", "DROPQ", "MEMDROP") and str(e.get("val")) in derived:
+                        bad = "argument %d (%s) is destroyed on a returning path instead of being stored (path: %s)" % (
+                            i, f["inputs"][i - 1]["s"], p.trace()[:240])
+        if bad:
+            res.bad(Violation("H5", f["path"], "stores-argument", bad, *_floc(f)))
+        else:
+            n += 1
+            res.ok(f["path"])
+    res.need(8, "by-value consumers of user data")
     return res
